@@ -332,6 +332,9 @@ func c16Origin(c *core.Ctx, block int) {
 
 func c16Table(c *core.Ctx, i int) {
 	cell := c16CellAt(i)
+	if cell.dir == "NORTH" && cell.tracks == "none" {
+		c16NoTimestamp(c, cell)
+	}
 	id := "A20231114WKD_060300_A..N"
 	wireStart := "10:03:00"
 	var wantStart time.Duration
@@ -410,6 +413,47 @@ func c16Table(c *core.Ctx, i int) {
 		}
 		if i%97 == 0 && oi == 1 && c.WantSample() {
 			c.Sample(map[string]any{"kind": "rule-table", "cell": sig, "options": fmt.Sprintf("%+v", opts), "message": prototextOf(m)})
+		}
+	}
+}
+
+// c16NoTimestamp: the same rule with a header that carries no timestamp (or an explicit 0): the feed time is then 0, a missing
+// first-stop time is still missing, and only negative times are earlier than it.
+func c16NoTimestamp(c *core.Ctx, cell c16Cell) {
+	var staleAt0 bool
+	switch cell.first {
+	case "no-stops", "no-times", "dep-delay-only+no-arr", "dep-negative", "arr-only-negative", "dep-min-int64":
+		staleAt0 = true
+	case "dep>", "arr-only>", "dep=", "dep<", "dep=1", "dep-max-int64":
+		staleAt0 = false
+	default:
+		return
+	}
+	if cell.id != "nyct-format" {
+		return
+	}
+	for _, explicitZero := range []bool{false, true} {
+		for _, opts := range c16OptCombos {
+			d := &gtfsrt.TripDescriptor{TripId: rgen.S("060350_A..N55R"), RouteId: rgen.S("A"), StartDate: rgen.S("20231114")}
+			c16SetNyct(d, cell.assigned, cell.dir, "TRAIN 7")
+			tu := &gtfsrt.TripUpdate{Trip: d, StopTimeUpdate: c16Stops(cell.first, cell.tracks, c.R)}
+			hdr := &gtfsrt.FeedHeader{GtfsRealtimeVersion: rgen.S("1.0")}
+			if explicitZero {
+				hdr.Timestamp = rgen.U64(0)
+			}
+			m := &gtfsrt.FeedMessage{Header: hdr, Entity: []*gtfsrt.FeedEntity{{Id: rgen.S("x"), TripUpdate: tu}}}
+			rt, err := gtfs.ParseRealtime(rgen.Marshal(m), &gtfs.ParseRealtimeOptions{Extension: nycttrips.Extension(opts)})
+			c.Eval(1)
+			c.Cmp(1)
+			c.Feature("table:header-without-timestamp")
+			if err != nil {
+				continue
+			}
+			wantDropped := opts.FilterStaleUnassignedTrips && cell.assigned != "true" && staleAt0
+			if wantDropped != (len(rt.Trips) == 0) {
+				c.Violationf(fmt.Sprintf("C16|stale-rule-without-feed-timestamp|dropped=%v|first=%s", len(rt.Trips) == 0, cell.first), map[string]any{"options": fmt.Sprintf("%+v", opts), "message": prototextOf(m)},
+					"header without timestamp (explicit zero: %v), assigned=%s, first=%s: dropped=%v, want %v", explicitZero, cell.assigned, cell.first, len(rt.Trips) == 0, wantDropped)
+			}
 		}
 	}
 }
